@@ -364,7 +364,15 @@ def fixed_defs_and_cases():
     gen = Def("FxGen", "struct", "none", [], ["A"], [], [("a", ("param", "A")), ("n", u8)])
     big = Def("FxBig", "struct", "zero", ["C", "align(128)"], [], [], [("x", u8)], align=128)
     holder = Def("FxHolder", "struct", "deep", [], [], [], [("n", u16), ("b", ("adt", "FxBig", ()))])
-    defs = [tag, outer, wide, mid, k128, ki128, gen, big, holder]
+    # the derive matrix: (struct named / struct tuple / enum tuple variant / enum named variant) x
+    # (parameter that is the type of a field / parameter only mentioned inside a field type)
+    A, B = ("param", "A"), ("param", "B")
+    shape = Def("FxShape", "enum", "none", [], ["A"], [], [("Empty", "unit", []), ("Tuple", "tuple", [("0", u8), ("1", ("vec", A))]),
+                                                          ("Named", "named", [("id", u32), ("items", ("vec", A)), ("last", ("opt", A))])])
+    mix = Def("FxMix", "enum", "deep", [], ["A", "B"], [], [("V0", "named", [("a", A), ("bs", ("vec", B))]), ("V1", "tuple", [("0", A), ("1", ("opt", B))])])
+    smix = Def("FxSMix", "struct", "none", [], ["A", "B"], [], [("a", A), ("bs", ("vec", B)), ("o", ("opt", B))])
+    tmix = Def("FxTMix", "struct", "deep", [], ["A", "B"], [], [("0", ("vec", B)), ("1", A)], style="tuple")
+    defs = [tag, outer, wide, mid, k128, ki128, gen, big, holder, shape, mix, smix, tmix]
     T = lambda name, *args: ("adt", name, tuple(args))
     cases = [
         (T("FxOuter"), [("s", [("t", 1, [n(7)]), n(258), n(1 << 40)]), ("s", [("t", 0, []), n(1), n(2)])]),
@@ -379,6 +387,12 @@ def fixed_defs_and_cases():
         (("rfull",), [("s", [])]),
         (("opt", ("rfull",)), [("t", 1, [("s", [])])]),
         (T("FxKi"), [("t", 1, [n(5)]), ("t", 0, [])]),
+        (T("FxShape", u32), [("t", 0, []), ("t", 1, [n(7), ("s", [n(1), n(2), n(3)])]), ("t", 2, [n(42), ("s", [n(1)]), ("t", 1, [n(5)])])]),
+        (T("FxShape", ("string",)), [("t", 2, [n(1), ("s", [("b", b"ab"), ("b", b"")]), ("t", 1, [("b", b"xyz")])]), ("t", 2, [n(0), ("s", []), ("t", 0, [])])]),
+        (T("FxMix", ("string",), u16), [("t", 0, [("b", b"hello"), ("s", [n(1), n(2)])]), ("t", 1, [("b", b""), ("t", 1, [n(9)])])]),
+        (T("FxMix", ("vec", u64), ("string",)), [("t", 0, [("s", [n(1)]), ("s", [("b", b"a")])]), ("t", 1, [("s", []), ("t", 0, [])])]),
+        (T("FxSMix", ("string",), u8), [("s", [("b", b"k"), ("s", [n(1), n(2), n(3)]), ("t", 1, [n(4)])])]),
+        (T("FxTMix", u32, ("vec", u8)), [("s", [("s", [("s", [n(1)]), ("s", [])]), n(5)])]),
     ]
     # every primitive on the eps-copy path (inside an Option) with a boundary value
     for p in PRIMS:
